@@ -83,12 +83,28 @@ def case_to_coq(c):
     return "{| c_id := %d; c_req := %s; c_obs := %s |}" % (c["id"], req, ob)
 
 
+def gcase_to_coq(c):
+    d = c["d"]
+    o = c["obs"]
+    req = "{| g_handler := %s; g_ce := %s; g_gz_ok := %s; g_ct := %s; g_wire_ok := %s |}" % (
+        coq_string(d.get("handler", "")), coq_string(d.get("ce", "")), b(d.get("gz_ok")), coq_string(d.get("ct", "")), b(d.get("wire_ok")))
+    canary_ok = o.get("canary", "") in ("", "2xx")
+    ob = "{| ob_outcome := %s; ob_canary_ok := %s; ob_alloc_kb := %d; ob_body_kb := %d |}" % (
+        OUTCOME.get(o["outcome"], "OOther"), b(canary_ok), int(o.get("alloc_kb", 0)), int(o.get("body_len", 0)) // 1024)
+    return "{| gc_id := %d; gc_req := %s; gc_obs := %s |}" % (c["id"], req, ob)
+
+
 def eval_cases(ck, name, cases):
-    txt = ("From Coq Require Import List String Ascii ZArith NArith Bool.\nFrom Qryn Require Import model.IngestRobust.\n"
+    gen = [c for c in cases if c["stream"] == "generic"]
+    rest = [c for c in cases if c["stream"] != "generic"]
+    # the route table is the one regenerated from controller/*.go on this run (gen_routes)
+    txt = ("From Coq Require Import List String Ascii ZArith NArith Bool.\n"
+           "From Qryn Require Import model.IngestRobust model.IngestPipe gen.GenGoroutinesWriter.\n"
            "Import ListNotations.\nOpen Scope string_scope.\nOpen Scope Z_scope.\n"
-           "Definition cases : list case := [\n  " + ";\n  ".join(case_to_coq(c) for c in cases) + "].\n"
-           "Definition M := Eval vm_compute in mismatches cases.\nPrint M.\n"
-           "Definition V := Eval vm_compute in spec_violations cases.\nPrint V.\n")
+           "Definition cases : list case := [\n  " + ";\n  ".join(case_to_coq(c) for c in rest) + "].\n"
+           "Definition gcases : list gcase := [\n  " + ";\n  ".join(gcase_to_coq(c) for c in gen) + "].\n"
+           "Definition M := Eval vm_compute in (mismatches cases ++ g_mismatches gen_routes gcases)%list.\nPrint M.\n"
+           "Definition V := Eval vm_compute in (spec_violations cases ++ g_spec_violations gen_routes gcases)%list.\nPrint V.\n")
     rc, out = ck.coq_eval(name, txt)
     if rc != 0:
         return None, None, out
@@ -191,7 +207,7 @@ def run_translator(ck):
 
 
 def nontrivial(c):
-    if c["stream"] == "struct":
+    if c["stream"] in ("struct", "generic"):
         return "/wellformed" not in c["class"] or "+ce" in c["class"]
     return "unchanged" not in c["class"] or "+" in c["class"]
 
@@ -275,8 +291,9 @@ def run_harness(ck):
             cases += load(outp)
         n = ck.n(600, 15000)
         nb = ck.n(2000, 50000)
+        ng = ck.n(400, 10000)
         outp = os.path.join(ck.work, "gen_out.jsonl")
-        rc, out = ck.go_run("ingestfuzz", ["--seed", ck.seed, "--n", n, "--nbytes", nb, "--max-bad", 12, "--phrases-file", PHRASES, "--out", outp], timeout=6000)
+        rc, out = ck.go_run("ingestfuzz", ["--seed", ck.seed, "--n", n, "--nbytes", nb, "--ngeneric", ng, "--max-bad", 12, "--phrases-file", PHRASES, "--out", outp], timeout=6000)
         if rc != 0:
             ck.obligation("harness ingestfuzz ran", False, out[-1500:])
             return
@@ -301,7 +318,8 @@ def run_harness(ck):
         mism += m
         viol += v
     byid = {c["id"]: c for c in cases}
-    nstruct = sum(1 for c in cases if c["stream"] == "struct")
+    nstruct = sum(1 for c in cases if c["stream"] in ("struct", "generic"))
+    ngeneric = sum(1 for c in cases if c["stream"] == "generic")
     nbytes = len(cases) - nstruct
     ck.obligation("correspondence: model predict = observed outcome class on %d structured requests" % nstruct, not mism,
                   "mismatching case ids: %s" % mism[:10])
@@ -332,7 +350,7 @@ def run_harness(ck):
     hist = {}
     outcomes = {}
     for c in cases:
-        key = c["class"].split("+")[0] if c["stream"] == "struct" else "bytes:" + c["class"].split(" ")[0]
+        key = c["class"].split("+")[0] if c["stream"] in ("struct", "generic") else "bytes:" + c["class"].split(" ")[0]
         key = "/".join(key.split("/")[:3])
         hist[key] = hist.get(key, 0) + 1
         ok = c["stream"] + ":" + c["obs"]["outcome"]
@@ -348,9 +366,9 @@ def run_harness(ck):
         "bodies of 17 route/content-type seeds, also gzip/snappy wrapped and under foreign content types. Non-trivial = structured case with at least one "
         "malformation or encoding overlay, or byte-level case whose body/params/headers differ from the seed; distinct by sha1 of (path, query, headers, body). ")
     ck.extra["input_distribution"] = {"classes": dict(sorted(hist.items())), "outcomes": dict(sorted(outcomes.items())),
-                                      "structured_cases": nstruct, "byte_level_fuzz_cases_(test_not_proof)": nbytes}
+                                      "structured_cases": nstruct, "of_which_predicted_from_the_route_table": ngeneric, "byte_level_fuzz_cases_(test_not_proof)": nbytes}
     smp = []
-    for want in ("ingest", "otlp/malformed", "zipkin", "bytes"):
+    for want in ("ingest", "otlp/malformed", "zipkin", "generic", "bytes"):
         for c in cases:
             if (c["class"].startswith(want) or (want == "bytes" and c["stream"] == "bytes")) and nontrivial(c):
                 r = dict(c["req"])
